@@ -218,7 +218,14 @@ type Sim struct {
 	trace   bool
 }
 
-func (ci *clientInfo) Yield(ctx context.Context, point string) { ci.sim.gate(ci, point, nil) }
+func (ci *clientInfo) Yield(ctx context.Context, point string) {
+	if point == "lock.enqueue" {
+		// inside the locker's own mutex, whose unlock is not deferred: a request parked (and
+		// possibly killed) here would leave the mutex locked. That atomicity is C15's subject.
+		return
+	}
+	ci.sim.gate(ci, point, nil)
+}
 
 func (ci *clientInfo) Await(ctx context.Context, point string, ch <-chan struct{}) {
 	ci.sim.gate(ci, point, ch)
